@@ -202,6 +202,14 @@ func mkctr(start int) func() int {
 	}
 }
 
+func relp(p *int) { fmt.Println("d", *p) }
+
+func relq(q *T) { fmt.Println("d", q.a, q.b) }
+
+func rels(s []int) { fmt.Println("d", s[0], s[1], s[2]) }
+
+func relm(m map[int]int) { fmt.Println("d", len(m), m[0]) }
+
 func show(x interface{}) {
 	if n, ok := x.(int); ok {
 		fmt.Println("rec", n)
@@ -735,6 +743,8 @@ func (r *rend) stmt(s *N) {
 			r.line("defer %s()", s.S)
 		case "mdel":
 			r.line("defer delete(%s, %s)", s.S, key(s.E))
+		case "relp", "relq", "rels", "relm":
+			r.line("defer %s(%s)", s.Form, s.S)
 		}
 	case "panic":
 		r.line("panic(%s)", Expr(s.E))
@@ -753,6 +763,24 @@ func (r *rend) stmt(s *N) {
 		r.line("} else {")
 		r.line("\tfmt.Println(\"norec\")")
 		r.line("}")
+	case "preasg":
+		if s.Form == "q" {
+			r.line("%s = &%s", s.P, s.S)
+		} else {
+			r.line("%s = &%s", s.P, s.X())
+		}
+	case "slreasg":
+		if s.Form == "share" {
+			r.line("%s = %s", s.S, s.From)
+		} else {
+			r.line("%s = []int{%s, %s, %s}", s.S, Expr(s.Es[0]), Expr(s.Es[1]), Expr(s.Es[2]))
+		}
+	case "mreasg":
+		if s.Form == "share" {
+			r.line("%s = %s", s.S, s.From)
+		} else {
+			r.line("%s = make(map[int]int)", s.S)
+		}
 	case "asgidx":
 		if s.Form == "xfirst" {
 			r.line("%s, arr[%s] = %s, %s", s.X(), idx(&N{K: "var", RawX: s.RawX}), Expr(s.A), Expr(s.B))
